@@ -70,34 +70,48 @@ def gridworld(sx, layout):
         ai = sx.integer('a', 0, len(acts) - 1)
         a = acts[int(ai)]
         xs, ys = int(x), int(y)
-        s = frozendict({'x': xs, 'y': ys})
         walls = {(w_['x'], w_['y']) for w_ in gw.walls}
         absorb = {(w_['x'], w_['y']) for w_ in gw.absorbing_states}
-        with sx.must_not_raise('next_state_dist'):
-            d = gw.next_state_dist(s, a)
-            items = list(d.items())
-        sx.prove_eq(ssum(p for _, p in items), 1, 'normalised')
         feat = {(k['x'], k['y']): v for k, v in gw.location_features.items()}
-        for ns, p in items:
-            sx.prove(ns in sl, 'successor-in-state-list')
-            if (xs, ys) in absorb:
-                sx.prove(ns == TERM, 'absorbing-feature-goes-to-terminal')
-                sx.prove_eq(gw.reward(s, a, ns), 0, 'terminal-transition-pays-nothing', tol=0)
-                continue
-            dx, dy = ns['x'] - xs, ns['y'] - ys
-            sx.prove(abs(dx) + abs(dy) <= 1, 'moves-at-most-one-cell')
-            if (dx, dy) != (0, 0):
-                sx.prove((dx, dy) == (a['dx'], a['dy']), 'moves-only-as-commanded')
-                sx.prove((ns['x'], ns['y']) not in walls, 'never-enters-a-wall')
-                sx.prove(0 <= ns['x'] < W and 0 <= ns['y'] < Hh, 'never-leaves-the-grid')
-                sx.prove_eq(p, sp, 'succeeds-with-configured-probability', tol=0)
-            else:
-                tx, ty = xs + a['dx'], ys + a['dy']
-                can_move = (a['dx'], a['dy']) != (0, 0) and 0 <= tx < W and 0 <= ty < Hh and (tx, ty) not in walls
-                sx.prove_eq(p, (1 - sp) if can_move else 1, 'stays-with-complementary-probability', tol=0)
-            r = gw.reward(s, a, ns)
-            f = feat.get((ns['x'], ns['y']), '')
-            sx.prove_eq(r, sc + fr.get(f, 0), 'reward-is-step-cost-plus-entered-feature', tol=0)
+
+        def check_query(xs, ys, a, tag=''):
+            s = frozendict({'x': xs, 'y': ys})
+            with sx.must_not_raise(f'{tag}next_state_dist'):
+                d = gw.next_state_dist(s, a)
+                items = list(d.items())
+            sx.prove_eq(ssum(p for _, p in items), 1, f'{tag}normalised')
+            for ns, p in items:
+                sx.prove(ns in sl, f'{tag}successor-in-state-list')
+                if (xs, ys) in absorb:
+                    sx.prove(ns == TERM, f'{tag}absorbing-feature-goes-to-terminal')
+                    sx.prove_eq(gw.reward(s, a, ns), 0, f'{tag}terminal-transition-pays-nothing', tol=0)
+                    continue
+                dx, dy = ns['x'] - xs, ns['y'] - ys
+                sx.prove(abs(dx) + abs(dy) <= 1, f'{tag}moves-at-most-one-cell')
+                if (dx, dy) != (0, 0):
+                    sx.prove((dx, dy) == (a['dx'], a['dy']), f'{tag}moves-only-as-commanded')
+                    sx.prove((ns['x'], ns['y']) not in walls, f'{tag}never-enters-a-wall')
+                    sx.prove(0 <= ns['x'] < W and 0 <= ns['y'] < Hh, f'{tag}never-leaves-the-grid')
+                    sx.prove_eq(p, sp, f'{tag}succeeds-with-configured-probability', tol=0)
+                else:
+                    tx, ty = xs + a['dx'], ys + a['dy']
+                    can_move = (a['dx'], a['dy']) != (0, 0) and 0 <= tx < W and 0 <= ty < Hh and (tx, ty) not in walls
+                    sx.prove_eq(p, (1 - sp) if can_move else 1, f'{tag}stays-with-complementary-probability', tol=0)
+                r = gw.reward(s, a, ns)
+                f = feat.get((ns['x'], ns['y']), '')
+                sx.prove_eq(r, sc + fr.get(f, 0), f'{tag}reward-is-step-cost-plus-entered-feature', tol=0)
+            return items
+        items = check_query(xs, ys, a)
+        # the same object is then asked about every other cell and action (an arbitrary first query, then all of them, then the
+        # first one again): every answer is for its own origin
+        if W * Hh <= 6:
+            for yy in range(Hh):
+                for xx in range(W):
+                    if (xx, yy) in walls:
+                        continue
+                    for a2 in acts:
+                        check_query(xx, yy, a2, 'later-query:')
+            check_query(xs, ys, a, 'repeated-query:')
         # terminal state: absorbing, zero reward self loop
         sx.prove(gw.is_absorbing(TERM) and list(gw.next_state_dist(TERM, a).items()) == [(TERM, 1)], 'terminal-is-absorbing')
         init = list(gw.initial_state_dist().items())
